@@ -234,40 +234,30 @@ def rowreset() -> bool:
 
 
 def skipreset() -> bool:
-    """F9, hash-check variant, in a plain rebuild (no kill): the plan and the sub-plan are edited (the sub-plan
-    now gives `gen` another output); `gen` is being hash-checked while the sub-plan redefines it; the check
-    ends in SKIP and records SUCCEEDED: return code 0, and the new output was never built."""
-    from simdirector import RandomSchedule
+    """F9, hash-check variant (generated case of the C05 oracle, first kill point = an ordinary rebuild after
+    plan edits): a step is being hash-checked (SKIP job in flight) while its re-running creator redefines it
+    with another output; the check ends in SKIP and records SUCCEEDED: return code 0, the new output was
+    never built and the old one is removed."""
+    from props import c05
 
-    def project(out, note):
-        return Project(scripts={"./plan.py": plan(A.static("a.txt", "sub_plan.py"), A.nop() if note else A.nop(),
-                                                   A.step("./sub_plan.py", inp=["sub_plan.py"], plan=True)),
-                                "./sub_plan.py": [A.nop(), A.step("gen", inp=["a.txt"], out=[out])],
-                                "gen": [A.read("a.txt"), A.write(out)]},
-                       files={"a.txt": "A\n", "sub_plan.py": plan_file_text(out)})
-
-    for seed in range(60):
-        with SimDirector(project("g1.txt", 0)) as sim:
-            first = sim.build(njob=3, schedule=FifoSchedule())
-            assert first.ok, first.returncode
-            sim.set_script("./plan.py", project("g2.txt", 1).scripts["./plan.py"] + [A.nop()])
-            sim.set_script("./sub_plan.py", project("g2.txt", 1).scripts["./sub_plan.py"], file="sub_plan.py")
-            sim.set_script("gen", project("g2.txt", 1).scripts["gen"], file="")
-            res = sim.build(njob=3, schedule=RandomSchedule(seed))
-            state = sim.query("SELECT step.state FROM node JOIN step ON step.node = node.i WHERE label = 'gen'")
-            if res.ok and "g2.txt" not in res.files:
-                print(f"skipreset: schedule seed {seed}: return code {res.returncode!r}, events "
-                      f"{[e for e in res.tags('START', 'SKIP', 'SUCCESS', 'REMOVE')]}, files {sorted(res.files)}, "
-                      f"state of gen {state} (23 = SUCCEEDED): the declared output g2.txt does not exist")
-                return True
-    print("skipreset: not reproduced")
-    return False
-
-
-def plan_file_text(note):
-    from simdirector import plan_file
-
-    return plan_file(["sub", note])
+    spec = c05.make_spec(4, 53, "quick")
+    spec["only_points"] = [["commit", 1]]
+    res = c05.run_case(spec)
+    hit = [f for f in res["findings"] if f["signature"] == "running-step-row-reset"]
+    for f in hit:
+        print("skipreset:", f["what"])
+    case = c05._Case(spec)
+    sim = case.prepare()
+    with sim:
+        case.interrupted_build(sim, crash_after_commit=1)
+        restart = sim.build(njob=spec["njob"], resources=case.resources, strict=True, schedule=FifoSchedule())
+        rows = sim.query("SELECT s.label, step.state, f.label, file.state FROM node AS s JOIN step ON step.node = s.i "
+                         "JOIN dependency ON dependency.source = s.i JOIN node AS f ON f.i = dependency.sink "
+                         "JOIN file ON file.node = f.i WHERE step.state = 23 AND file.state = 15 AND NOT s.detached "
+                         "AND NOT f.detached")
+        print(f"skipreset: restart {restart.returncode!r}; SUCCEEDED steps with PLANNED outputs: {rows}; "
+              f"on disk: {[r[2] in restart.files for r in rows]}")
+        return bool(hit) or bool(rows)
 
 
 WITNESSES = {"orphan": orphan, "reverted": reverted, "digest": digest, "reconfirm": reconfirm, "sibling": sibling,
